@@ -79,6 +79,17 @@ for t, how in texts:
     sc = cls(lambda: set_value(src, path, '1')); after_set = src.rebuild()
     rc = cls(lambda: remove_value(src, path)); after_rm = src.rebuild()
     case = {'text': t, 'damage': how, 'path': path}
+    # the file entry point must pass the same bytes through (parse_file reads the file as text)
+    if len(rows) % 4 == 0 and '\r' not in t:
+        import tempfile
+        from nix_manipulator.parser import parse_file
+        with tempfile.NamedTemporaryFile('w', suffix='.nix', delete=False, encoding='utf-8', newline='') as fh: fh.write(t); fpath = fh.name
+        try:
+            fsrc = parse_file(fpath); frb = fsrc.rebuild()
+            if frb != t: viol.append(dict(case, what='parse_file: erroneous file is not passed through byte for byte', got=frb))
+            elif not fsrc.contains_error: viol.append(dict(case, what='parse_file: contains_error is false on a file tree-sitter flags'))
+        except Exception as ex: viol.append(dict(case, what='parse_file raises %s on an erroneous file' % type(ex).__name__))
+        finally: os.unlink(fpath)
     if rb != t: viol.append(dict(case, what='erroneous input is not passed through byte for byte', got=rb))
     elif not ce: viol.append(dict(case, what='contains_error is false on a text tree-sitter flags'))
     elif sc == 'ok' or rc == 'ok': viol.append(dict(case, what='an edit of an erroneous source was accepted (set: %s, rm: %s)' % (sc, rc), after=after_set))
